@@ -20,6 +20,115 @@ claim("C33",
       "Kani/CBMC bounded model checking of the compiled real code (SAT, cadical), native replay "
       "of counterexamples", "DESIGN.md §4 C33")
 
+
+K = "Kani/CBMC bounded model checking of the compiled real code (SAT, cadical); native replay of counterexamples"
+M = "symbolic execution of rustc MIR regions of the current tree -> SMT-LIB2 -> z3 (cvc5 cross-check in thorough); Prolog-level native replay"
+
+claim("C01",
+      "Bounded model checking of the integer kernels' Fixnum x Fixnum arms against an i128 "
+      "oracle: exact value when the result fits 56 bits, otherwise exactly one delegation to "
+      "dashu with the exact i64 result / the right operands; ISO error kinds. Every operand "
+      "inside the stated widths is covered by the solver.",
+      "dashu's arithmetic is trusted (recording stubs); bignum/rational operand arms outside "
+      "(Kani mis-models TypedArenaPtr::deref); widths: full 56-bit for + - neg abs bit-ops "
+      "shifts, 16x16 / 55x7 bits for *, 16x16 for // rem mod, 8x8 for div, |x|<64 for gcd.",
+      K, "DESIGN.md §4 C01")
+claim("C02",
+      "Bounded model checking over every finite double of classify_float, + (and * / in "
+      "thorough), the zero-divisor / sqrt / atan2 / 0**negative guards, unary_float_fn_template "
+      "with libm replaced by an arbitrary double, and floor/ceiling/truncate/round against the "
+      "defining inequalities; plus a MIR check that each float kernel calls the IEEE/libm "
+      "function its name prescribes.",
+      "CBMC's IEEE-754 semantics is the reference; the value libm returns is outside; dashu "
+      "conversions are recording stubs; bignum/rational operands outside.",
+      K + " + " + M, "DESIGN.md §4 C02", engine="kani+mirsmt")
+claim("C03",
+      "The wiring functor -> instruction -> handler -> kernel (compiled evaluator) and functor "
+      "-> kernel (run-time evaluator), with operand order, is extracted from the MIR of the "
+      "current tree by symbolic execution and compared by z3 for every evaluable functor.",
+      "kernels are functions of their operands (C01/C02); operand fetch shared; error-context "
+      "terms normalised away; findall/assert/call contexts reach the same two evaluators.",
+      M, "DESIGN.md §4 C03", engine="mirsmt")
+claim("C04",
+      "K: Number::cmp/eq on fixnum and float arms = exact integer order / IEEE order after "
+      "`as f64`, eq <=> cmp==Equal, antisymmetry, transitivity over mixed triples. M: each of the "
+      "24 compare-number instruction arms succeeds exactly on the orderings its relation "
+      "allows and compares (first operand, second operand) in that order.",
+      "dashu's comparisons for bignum/rational sides are trusted; NaN excluded (C02).",
+      K + " + " + M, "DESIGN.md §4 C04", engine="kani+mirsmt")
+claim("C05",
+      "M: unify_fixnum / unify_big_integer / unify_big_rational succeed exactly when the value "
+      "comparison of the instruction's number with the cell's number says equal, for every "
+      "representation of the cell, and fail on floats. K: bignum and fixnum cells are in the "
+      "same standard-order class.",
+      "dashu num_eq/eq trusted; integer-taking builtins, sorting and the database are outside "
+      "(index keys: C06).",
+      M + " + " + K, "DESIGN.md §4 C05", engine="mirsmt+kani")
+claim("C06",
+      "The key expressions of first-argument indexing on the call side and the clause side are "
+      "extracted from MIR and instantiate an SMT cell model; z3 decides that equal numeric "
+      "values meet under a common key (fitting values: must hold; non-fitting values: the known "
+      "finding F5b).",
+      "model of cell equality (raw bits / arena pointers); table construction and incremental "
+      "maintenance, clause order, non-numeric routing outside.",
+      M, "DESIGN.md §4 C06", engine="mirsmt")
+claim("C09",
+      "M: every place that reads a dynamic clause's (birth, death) stamps decides visibility "
+      "as birth < cc && Finite(cc) <= death, skips dead clauses to p+next and ends the chain "
+      "otherwise (6 arms). K: the derived order on Death and the visibility window.",
+      "one step of each chain walk; where cc comes from, stamping at assert/retract and the "
+      "histories quantifier are outside.",
+      M + " + " + K, "DESIGN.md §4 C09", engine="mirsmt+kani")
+claim("C11",
+      "M: MachineState::trail pushes an entry of the cell's kind whenever the bound cell is "
+      "older than the newest choice point (h < hb, h < b) - sufficiency, decided by z3 over all "
+      "h, hb, b - and Machine::unwind_trail resets a trailed cell to the unbound variable of its "
+      "kind at the same index.",
+      "hb/b/tr maintenance, attribute lists, bb_b_put and Prolog-level constructs outside.",
+      M, "DESIGN.md §4 C11", engine="mirsmt")
+claim("C13",
+      "K: order_category puts every cell kind in the class the standard order prescribes "
+      "(bignum = fixnum = Integer; f/0 = Atom), the category order is Var < Float < Integer < Atom "
+      "< Compound, atoms order bytewise, numbers by value.",
+      "compare_pstr_slices and ParallelHeapIter (compound comparison, strings vs lists, "
+      "transitivity over compounds) are outside.",
+      K, "DESIGN.md §4 C13")
+claim("C18",
+      "K: one CharReader operation from every reader state (buf.len <= 8, pos, next chunk <= 4 "
+      "then EOF) with all bytes symbolic: result = RFC 3629 decoding of the unread bytes ++ "
+      "chunk, nothing consumed by peek, put_back round trip, no panic.",
+      "read_chunk's 8 KiB buffer replaced by 8 bytes; sizes enumerated (lattice), bytes "
+      "symbolic; remainders > 8 bytes and stream plumbing outside.",
+      K, "DESIGN.md §4 C18")
+claim("C20",
+      "K: for strings of concrete small lengths with symbolic bytes, what push_pstr_segment "
+      "writes and what scan_slice_to_str / pstr_tail_idx / compute_pstr_size / slice_to_str / "
+      "copy_pstr_within / last_str_char_and_tail compute agree; the index identities hold for "
+      "every length < 2^48.",
+      "allocate_pstr/allocate_cstr as a whole (str::find), NUL-splicing, HeapPStrIter and all "
+      "string-consuming builtins outside; ASCII contents.",
+      K, "DESIGN.md §4 C20")
+claim("C21",
+      "K: inline atoms round-trip text <-> index for lengths 1..6 (1-2 symbolic bytes), char "
+      "atoms, AtomCell packing, bytewise order. z3: every entry of the generated atom! table "
+      "carries the index the inline rule gives and indices are distinct.",
+      "interned (dynamic) atoms - IndexSet, RCU, locks - are outside.",
+      K + " + finite z3 table check", "DESIGN.md §4 C21", engine="kani+z3")
+claim("C30",
+      "K: with heap growth failing (realloc's failure contract injected at InnerHeap::grow) "
+      "every fallible Heap operation returns AllocError and leaves length, capacity, pointer, "
+      "resource_err_loc and every byte unchanged.",
+      "store_resource_error/functor_writer, propagation macros, catchability and later goals "
+      "are outside; allocation failure inside dashu/Vec aborts.",
+      K, "DESIGN.md §4 C30")
+claim("C55",
+      "K: the quoting decision equals an ISO 6.4.2 reference for every ASCII text of 0..3 (4 in "
+      "thorough) chars, escapes of 6.4.2.1, token-separation sufficiency for all ASCII char "
+      "pairs, operator bracketing sufficiency for all priorities x 7x7 specifiers.",
+      "HCPrinter's walk, op-table dependent decisions, the hex-escape branch (format!) and "
+      "non-ASCII beyond U+024F outside.",
+      K, "DESIGN.md §4 C55")
+
 NOT_APPLICABLE = {
     "C07": "whole compiler + VM; needs a booted Machine; no unit smaller than 'compile and run' carries the property; symbolic execution of the WAM on a symbolic program fits no meaningful bound",
     "C08": "the same pipeline three ways plus the Prolog-level call/N dispatcher; needs a booted Machine",
@@ -65,19 +174,4 @@ NOT_APPLICABLE = {
 
 # designed in DESIGN.md §4 but whose check is not built yet in this tree; moved to CLAIMED as
 # each check lands
-PENDING = {
-    "C01": "designed (DESIGN §4 C01: Kani on the arithmetic kernels); check not built yet in this tree",
-    "C02": "designed (DESIGN §4 C02); check not built yet in this tree",
-    "C03": "designed (DESIGN §4 C03: MIR-slice wiring tables); check not built yet in this tree",
-    "C04": "designed (DESIGN §4 C04); check not built yet in this tree",
-    "C05": "designed (DESIGN §4 C05); check not built yet in this tree",
-    "C06": "designed (DESIGN §4 C06); check not built yet in this tree",
-    "C09": "designed (DESIGN §4 C09); check not built yet in this tree",
-    "C11": "designed (DESIGN §4 C11); check not built yet in this tree",
-    "C13": "designed (DESIGN §4 C13); check not built yet in this tree",
-    "C18": "designed (DESIGN §4 C18); check not built yet in this tree",
-    "C20": "designed (DESIGN §4 C20); check not built yet in this tree",
-    "C21": "designed (DESIGN §4 C21); check not built yet in this tree",
-    "C30": "designed (DESIGN §4 C30); check not built yet in this tree",
-    "C55": "designed (DESIGN §4 C55); check not built yet in this tree",
-}
+PENDING = {}
